@@ -7,8 +7,9 @@ the tiling theorems hold for EVERY patch size `pv` with `n · pv ≥ N` (so they
 `pv` was rounded), and `pv = ⌈N/n⌉` satisfies that.
 -/
 import DarsiaProofs.Patches
+import DarsiaProofs.PatchesImg
 namespace Darsia.C19
-open Darsia Darsia.Patch
+open Darsia Darsia.Patch Darsia.Im
 
 /-- patch size: the metric formula of the code, in exact arithmetic, is `⌈N/n⌉` (integer form). -/
 theorem pv_eq_ceil (D : Rat) (N n : Nat) (hD : 0 < D) (hN : 0 < N) (hn : 0 < n) :
@@ -99,6 +100,72 @@ voxel corner 3, physical corner at 7/3 voxels (in voxel 2). The full statement
 theorem corners_voxel_physical_disagree_witness :
     Axis.cornerLo ⟨7, 3, pvInt 7 3, 0⟩ 1 = 3 ∧ cornerMetricVox 1 7 3 1 = 7 / 3 ∧
       Rat.floor (cornerMetricVox 1 7 3 1) = 2 := by decide +kernel
+
+/-! ### round 2: patches as images (metadata + pixel array, scalar and vector payload), counting form, blending -/
+
+/-- PER-PATCH METADATA AND DATA = the C02 sub-image theorem instantiated at `rois[i][j]`: a non-empty patch (i, j)
+of a 2-D single-time image (scalar or vector payload) has shape `stop − start` (ROI clipped to the image), every
+(fractional) voxel position `v` of the patch has the base coordinate of `v + start`, the voxel size is the base's,
+time/date/payload flags are the base's, and entry (v, c) of its pixel array is base entry (v + start, c). -/
+theorem patch_metadata (base P : ImgA) (a0 a1 : Axis) (i j : Nat) (hcs : base.md.cs.ok) (hd : base.md.cs.dim = .d2)
+    (hsh : base.md.cs.shape = [a0.N, a1.N]) (h : patchOf base a0 a1 i j = .ok P) (hne : P.md.nonempty = true) :
+    let start := [min (a0.roi i).1 a0.N, min (a1.roi j).1 a1.N]
+    ∃ am, axisMap .d2 = .ok am ∧
+      P.md.cs.shape = [min (a0.roi i).2 a0.N - min (a0.roi i).1 a0.N, min (a1.roi j).2 a1.N - min (a1.roi j).1 a1.N] ∧
+      (∀ v : List Rat, v.length = 2 → coordWith am P.md.cs v = coordWith am base.md.cs (List.zipWith (· + ·) v (start.map fun s => ((s : Nat) : Rat)))) ∧
+      (∀ p, p < 2 → P.md.cs.h p = base.md.cs.h p) ∧
+      P.md.time = base.md.time ∧ P.md.date = base.md.date ∧ P.md.scalar = base.md.scalar ∧
+      (∀ (t : Nat) (v : List Nat) (c : Nat), v.length = 2 → P.data t v c = base.data t (List.zipWith (· + ·) v start) c) := by
+  intro start
+  unfold patchOf at h
+  simp only [bind, Except.bind] at h
+  split at h
+  · exact absurd h (by simp)
+  · have hm : base.md.subSlices (patchSlices a0 a1 i j) = .ok P.md := by
+      unfold ImgA.subSlices at h
+      simp only [bind, Except.bind, pure, Except.pure] at h
+      split at h
+      · exact absurd h (by simp)
+      · next m hm => injection h with h; subst h; exact hm
+    have hns : List.zipWith sliceIdx base.md.cs.shape (patchSlices a0 a1 i j) =
+        [(min (a0.roi i).1 a0.N, min (a0.roi i).2 a0.N), (min (a1.roi j).1 a1.N, min (a1.roi j).2 a1.N)] := by
+      rw [hsh]; simp only [patchSlices, List.zipWith_cons_cons, List.zipWith_nil_right, sliceIdx_nat]
+    have := subSlices_placed base.md P.md hcs (patchSlices a0 a1 i j) hm hne
+    simp only [hns, hd] at this
+    obtain ⟨am, ham, s1, _, s3, s4, s5, s6, _, _, s10⟩ := this
+    refine ⟨am, ham, by simpa using s1, ?_, ?_, s5, s6, s10, ?_⟩
+    · intro v hv; simpa [Dim.toNat, start] using s3 v (by simpa [Dim.toNat] using hv)
+    · intro p hp; exact s4 p (by simpa [Dim.toNat] using hp)
+    · intro t v c hv
+      have := subSlices_data base P (patchSlices a0 a1 i j) h (by rw [hsh, hd]; rfl) t v (by rw [hd]; exact hv) c
+      rw [hns] at this
+      exact this
+
+/-- `Patches` refuses 3-D images and space-time images (NotImplementedError), whatever the patch counts. -/
+theorem patches_refuse_3d_and_series (base : ImgA) (a0 a1 : Axis) (i j : Nat)
+    (h : base.md.cs.dim = .d3 ∨ base.md.series = true) : patchOf base a0 a1 i j = .error .notImpl := by
+  unfold patchOf buildGuard
+  rcases h with h | h
+  · simp [h, bind, Except.bind]
+  · by_cases h3 : base.md.cs.dim = .d3 <;> simp [h, h3, bind, Except.bind]
+
+/-- COUNTING form of the tiling: every pixel of an axis lies in the interior of EXACTLY ONE patch. -/
+theorem interiors_cover_once (a : Axis) (hov : a.ov ≤ a.pv) (hcover : a.N ≤ a.n * a.pv) (x : Nat) (hx : x < a.N) :
+    ((List.range a.n).map fun k => (a.piece k).count x).sum = 1 := cover_count_one a hov hcover x hx
+
+/-- KNOWN FINDING (negative): `blend_and_assemble` as the code stands raises on every call (`_prepare_weights` reads
+`self.pw`, `self.ph`, `self.ow`, … and `base.num_pixels_width`, which no longer exist), so neither
+"zero overlap ⇒ equals assemble()" nor "blending unmodified patches reproduces the image" holds for the code. -/
+theorem blend_and_assemble_unusable (a0 a1 : Axis) : blendAndAssemble a0 a1 = .error .other := rfl
+
+/-- SPECIFICATION a repaired blending has to meet (not the code): weights that sum to one at a pixel, applied to
+patches that all hold the base value there, give the base value; the interior indicators (zero-overlap blending,
+i.e. `assemble`) are such weights on every pixel of the image. -/
+theorem blend_spec_partial (a : Axis) (hov : a.ov ≤ a.pv) (hcover : a.N ≤ a.n * a.pv) (x : Nat) (hx : x < a.N) :
+    ((List.range a.n).map (interiorWeight a x)).sum = 1 ∧
+    ∀ (w val : Nat → Rat) (b : Rat), ((List.range a.n).map w).sum = 1 → (∀ k, k < a.n → w k ≠ 0 → val k = b) →
+      blendAt w val a.n = b :=
+  ⟨interiorWeight_sum_one a hov hcover x hx, fun w val b h1 hv => blend_partition_of_unity w val a.n b h1 hv⟩
 
 /-! non-vacuity: 7 × 10 voxels, 3 × 4 patches, overlaps 1 and 2 -/
 def exA0 : Axis := ⟨7, 3, pvInt 7 3, 1⟩
